@@ -25,6 +25,26 @@ type Op struct {
 	// Kind: arrive | reap | produce | produce-exec-fails | produce-stop-during-take | restart
 	Kind string   `json:"kind"`
 	Txs  [][]byte `json:"txs,omitempty"`
+	// Pad > 0 (arrive): every transaction of this arrival is padded to Pad more bytes when the scenario runs
+	// (a reap of megabytes from a short description).
+	Pad int `json:"pad,omitempty"`
+}
+
+// expanded returns the scenario with the paddings applied.
+func (sc Scenario) expanded() Scenario {
+	out := sc
+	out.Ops = make([]Op, len(sc.Ops))
+	for i, o := range sc.Ops {
+		if o.Pad > 0 {
+			txs := make([][]byte, len(o.Txs))
+			for j, tx := range o.Txs {
+				txs[j] = append(append([]byte(nil), tx...), bytes.Repeat([]byte{'.'}, o.Pad)...)
+			}
+			o.Txs, o.Pad = txs, 0
+		}
+		out.Ops[i] = o
+	}
+	return out
 }
 
 type Scenario struct {
@@ -54,6 +74,15 @@ func gen(t *rapid.T) Scenario {
 					pool = append(pool, tx)
 				}
 				o.Txs = append(o.Txs, tx)
+			}
+			if rapid.Uint64().Draw(t, "bigarrival")%25 == 7 {
+				// megabytes of new transactions in one reap (more than fits one batch of the sequencing layer)
+				o.Pad = rapid.SampledFrom([]int{400_000, 600_000, 800_000}).Draw(t, "pad")
+				for len(o.Txs) < 3 {
+					tx := rapid.SliceOfN(rapid.Byte(), 1, 12).Draw(t, "bigtx")
+					pool = append(pool, tx)
+					o.Txs = append(o.Txs, tx)
+				}
 			}
 			sc.Ops = append(sc.Ops, o)
 		case k < 7:
@@ -371,6 +400,7 @@ func brief(b [][]byte) string {
 }
 
 func run(sc Scenario, dir string) world.Verdict {
+	sc = sc.expanded()
 	base, ops := runWith(sc, -1, 0, dir)
 	if base.Violation != "" {
 		return base
